@@ -27,7 +27,7 @@ skipped = {}
 def programs(ctx):
     skipped.clear()
     rng = ctx.rng('programs')
-    n = 700 if ctx.quick else 5000
+    n = 700 if ctx.quick else 2500
     depth = 3 if ctx.quick else 4
     out = []
     for i in range(n):
@@ -70,7 +70,7 @@ def programs(ctx):
 
 def run(ctx):
     H = 2 if ctx.quick else 3
-    maxbits = 12 if ctx.quick else 15
+    maxbits = 12
     progs = programs(ctx)
     recs = s4.compare(ctx, [p for _, p in progs], H, maxbits)
     res = c01.summarize(ctx, progs, recs, H, maxbits, 'C04')
